@@ -86,6 +86,63 @@ NOTES = {
                "both operands point to the same allocation and T's == is not reflexive (NaN)"),
     "C20-M2": ("Debug / Display for Cc rewritten through write!(f, \"{:?}\" / \"{}\")",
                "a non-default format specifier (width, precision, #, x?)"),
+    # ---- round 2 (authors were told what had been submitted before) ----
+    "C01-M3": ("__collect: has_finalized overwritten per object instead of accumulated",
+               "a garbage set mixing to-be-finalized and already-finalized objects, an already-finalized one last in the list, an earlier finalizer of the same pass resurrects part of the graph: the re-trace is skipped and reachable objects are freed"),
+    "C01-M4": ("the unwinding guard of trace_counting walks the buffer through prev links (only the first leftover object is reset)",
+               "counting phase unwinds with >= 2 objects still buffered, a non-first one already counted; later panic-free collection frees it while held"),
+    "C02-M3": ("after a finalization pass the objects buffered by finalizers are dropped from the buffer (empty list appended)",
+               "a collector-run finalizer releases the last program-reachable handle of another cycle: that cycle is never reclaimed"),
+    "C02-M4": ("deallocate_list skips freeing boxes whose counter is not zero after the destructors ran",
+               "garbage owned through a traced field that its owner's drop glue does not release (ManuallyDrop<Cc<T>>): dropped but never deallocated"),
+    "C03-M3": ("try_unwrap reads the value out before the refusal checks",
+               "unique Cc with a non-trivial destructor, try_unwrap called from a finalizer / cleaning action (refused): the bitwise copy is dropped, and the value again later"),
+    "C03-M4": ("root tracing condition loosened (counter == tracing_counter dropped)",
+               "three live buffered objects R, C, N buffered in that order, R holding a Cc to C (with finalization: an earlier identical collection): waiting roots end up in the list to free"),
+    "C04-M3": ("State::is_dropping_list() reads the dropping cell",
+               "callbacks nested three deep: collector finalizer drops the last Cc of an outside object whose cleaning action queries a Weak to a cycle member: strong_count 0 / upgrade None for a live object"),
+    "C04-M4": ("the decrement on the in-list fast path of Cc::drop written inside debug_assert!",
+               "release builds only: a collector-run finalizer drops a Cc to a member of its own garbage set: count too high, never reclaimed"),
+    "C05-M3": ("unwinding reset of tracing counters moved into the per-object guard (resets the wrong object)",
+               "counting phase unwinds after buffered objects were counted; a later collection finalizes an object the program still holds"),
+    "C05-M4": ("Finalize for RefCell<T> forwards under try_borrow_mut",
+               "managed value that is directly a RefCell: finalizer skipped while a shared borrow is outstanding / finalizer cannot read its own cell"),
+    "C06-M3": ("CcBox::new: born-finalized flag is is_finalizing() && !is_dropping()",
+               "a finalizer that creates and releases an object of its own kind, first run as a field of another object being destroyed: unbounded finalizer recursion"),
+    "C06-M4": ("reset_tracing_counter moved from mark_self_and_append into finalize_inner",
+               "R finalized and resurrected once, later in a garbage cycle with a fresh N whose finalizer resurrects R: stale tracing counter, R and N freed while held"),
+    "C07-M3": ("the unwinding guard of trace_counting skips its reset until one object has been fully traced",
+               "the first traced (most recently buffered) object's nested trace panics after it traced a Cc to a still-buffered object"),
+    "C07-M4": ("a guard re-buffers the cycle when a finalizer panics but does not reset the tracing counters",
+               "garbage cycle of >= 2, first finalizer resurrects its own object, second finalizer panics, later collection: freed while held (release) / assertion (debug)"),
+    "C08-M3": ("State::is_dropping_list() returns false while finalizing is set",
+               "collector drop phase; the drop glue of the node dropped first releases the last Cc of an untraced object whose finalizer upgrades a Weak to a not-yet-dropped peer"),
+    "C08-M4": ("Weak::strong_count refuses only in-list objects whose counter equals their tracing counter",
+               "garbage set of >= 3 where P is referenced by two others; after one referent was dropped, a destructor-side probe upgrades a Weak to P"),
+    "C09-M3": ("try_unwrap calls drop_metadata() only when weak_count() != 0",
+               "downgrade, release every Weak, successful try_unwrap: the side record is never released"),
+    "C09-M4": ("set_finalized(false) clears with & COUNTER_MASK (also clears the side-record bit)",
+               "an object with a side record and finalize_again(): Cc::weak_count drops to 0, a second side record is allocated later"),
+    "C10-M3": ("Cleanable::clean keeps the upgraded Cc<CleanerMap> until it returns (borrow released earlier)",
+               "an action run through clean() releases its own Cleaner's owner while other actions are pending: they run when clean() returns"),
+    "C10-M4": ("Cc::drop skips remove_from_list while a collection is running",
+               "an allocation is buffered and then loses its last pointer inside one collection's destructor phase (action cleans a neighbour's Cleanable; two actions drop the last captured Ccs): freed box stays linked in the buffer"),
+    "C11-M3": ("Cc::downgrade no longer un-buffers",
+               "an object that is already buffered when it is downgraded (also: register, clean, register again on one cleaner)"),
+    "C11-M4": ("Cc::drop skips buffering for managed types without drop glue",
+               "Cc<u64>, arrays, Copy structs: dropping one of several Ccs does not buffer"),
+    "C12-M3": ("a shared FinalizingGuard clears state.finalizing instead of restoring it",
+               "a finalizer drops the last Cc of another object that still needs finalization: afterwards is_tracing() is true inside finalizers / try_unwrap Ok in a finalizer"),
+    "C12-M4": ("the dropping reset guard of collect() ends up under cfg(feature = finalization)",
+               "without the finalization feature: a collection requested from a destructor under a plain Cc::drop traces with is_tracing()==false"),
+    "C13-M3": ("Cc::drop forgets the finalizing guard on the resurrected-object early return",
+               "an object resurrected by its own finalizer during a top-level Cc::drop: finalizing stays true, every later try_unwrap of a unique pointer returns Err"),
+    "C13-M4": ("the unwinding guard of trace_counting also un-marks the objects still buffered",
+               "victim buffered, a panicking-Trace object buffered after it, collection unwound, victim try_unwrapped before any successful collection: freed while linked in the buffer"),
+    "C14-M3": ("new_cyclic: Weak declared after the PanicGuard, guard only clears the accessible bit",
+               "closure panics with no clone of the Weak outstanding: side record leaks"),
+    "C14-M4": ("new_cyclic: initial weak-count increment written inside debug_assert!",
+               "release builds: closure saves a clone outside the value: side record freed while the clone exists"),
 }
 
 
